@@ -1,5 +1,6 @@
 (* Extraction of the connection model across the hand-over to live mode (C16). ExtrOcamlBasic only. *)
 From Coq Require Import Extraction ExtrOcamlBasic.
-From T38 Require Import Base.Bytes Model.Resp Model.Pipeline Model.PipelineLive.
+From T38 Require Import Base.Bytes Model.Resp Model.Pipeline Model.PipelineLive Model.MvtArgs.
 Extraction Language OCaml.
-Extraction "model.ml" Z.add Z.of_N Nat.add read_cmd_fixed http_parse live_run live_spec acted_all ho_pinned ho_repaired.
+Extraction "model.ml" Z.add Z.of_N Nat.add read_cmd_fixed http_parse live_run live_spec acted_all ho_pinned ho_repaired
+  mvt_filter mvt_entry mvt_reject_exact4 mvt_reject_below4.
